@@ -84,6 +84,8 @@ class LP(FP):
                 self.eat("op", ")")
                 if m == "key_found":
                     a = f"(RI.keyFound {a})"
+                elif m == "wrapping_add1":
+                    a = f"(({a} + 1) % {2 ** self.W})"
                 elif m == "leading_zeros":
                     a = f"(RI.clz {self.W} {a})"
                 elif m == "len":
@@ -111,6 +113,12 @@ class LP(FP):
                 self.eat("op", ")")
                 return f"({ctor} {e})"
             return ctor
+        if k == "id" and v == "hasword" and self.peek(1) == ("op", "("):
+            self.eat(); self.eat()
+            arr = self.eat("id"); self.eat("op", ","); x = self.expr(); self.eat("op", ")")
+            r = f"(RI.hasWord {arr} {x})"
+            self.boolexprs.add(r)
+            return r
         if k == "id" and v in ("anyzero", "room16") and self.peek(1) == ("op", "("):
             self.eat(); self.eat()
             arr = self.eat("id"); self.eat("op", ")")
@@ -232,6 +240,20 @@ class SP:
             e = p.expr()
             p.eat("op", ";")
             return ("assign", f"{v}_{f}", f"({v}_{f} {op} {e})")
+        if p.peek()[0] == "id" and p.peek(1) == ("op", ".") and p.peek(2)[0] == "id" and p.peek(3) == ("op", "=") and p.peek(4) != ("op", "="):
+            v = p.eat("id"); p.eat(); f = p.eat("id"); p.eat()
+            e = p.expr()
+            p.eat("op", ";")
+            return ("assign", f"{v}_{f}", e)
+        if self.at("while"):
+            p.eat()
+            c = p.expr()
+            p.eat("op", "{")
+            x = p.eat("id"); p.eat("op", "=")
+            e = p.expr()
+            p.eat("op", ";")
+            p.eat("op", "}")
+            return ("while", c, x, e)
         if self.at("match") and p.peek(1) == ("id", "p_lookfor"):
             # match p_lookfor(k, a, off) { LookedUp::KeyFound(idx) => {..} LookedUp::EmptySpot(idx) => {..} LookedUp::NeedInsert => {} }
             p.eat()
@@ -385,6 +407,8 @@ def assigned(stmts):
                 out |= assigned(b)
         elif s[0] == "callins" or s[0] == "callrm":
             out.add(s[3])
+        elif s[0] == "while":
+            out.add(s[2])
     return out
 
 class Gen:
@@ -395,6 +419,7 @@ class Gen:
         self.pure = pure          # a function of `&self`: `return e` is just the value (a `bool`)
         self.props = props or set()
         self.boolvars = set()
+        self.W = 64
         self.szvar = None         # `&mut self` arms: the header's member count is returned with the answer
     def value(self, e):
         v = f"(decide {e})" if e in self.props else e
@@ -404,9 +429,24 @@ class Gen:
             return f"(Except.ok (({v}, {self.szvar}), a))"
         return f"(Except.ok ({e}, a))"
     boolexprs = set()
+    def diverges(self, s):
+        """every branch of the `if` statement ends in return / panic"""
+        def div(b):
+            if not b:
+                return False
+            l = b[-1]
+            if l[0] in ("return", "panic"):
+                return True
+            if l[0] == "if":
+                return l[2] is not None and all(div(x) for _, x in l[1]) and div(l[2])
+            return False
+        return s[2] is not None and all(div(b) for _, b in s[1]) and div(s[2])
     def cond(self, c):
         return f"({c} = true)" if (c in self.boolvars or c in self.boolexprs) else c
+    joins = False
     def ty(self, x):
+        if x in self.boolvars or x in self.boolexprs:
+            return "Bool"
         return dict(self.params).get(x, "List Nat" if x == "bitsplits" else "Nat")
     def comp(self, stmts, scope, tail):
         """Lean term for the statement list; `tail`: term used when control falls off the end (None: must not)"""
@@ -422,6 +462,11 @@ class Gen:
                 self.boolvars.add(s[1])
                 return f"(let {s[1]} := decide {s[2]}; {self.comp(rest, scope + [s[1]], tail)})"
             return f"(let {s[1]} := {s[2]}; {self.comp(rest, scope + [s[1]], tail)})"
+        if k == "while":
+            _, c, x, e = s
+            # an unbounded `while`: at most `len + W + 3` iterations are ever needed (`placeholder_scan_terminates`)
+            return (f"(let {x} := RI.whileN (Array.size a + {self.W} + 3) (fun {x} => decide {c}) (fun {x} => {e}) {x}; "
+                    f"{self.comp(rest, scope, tail)})")
         if k == "callins":
             _, x, key, arr, off = s
             return (f"(match p_insert_{self.suffix} {key} {arr} {off} with | Except.error err => Except.error err "
@@ -464,6 +509,19 @@ class Gen:
                     f"| none => {self.comp(b + rest, scope, tail)})")
         if k == "panic":
             return f'(Except.error "{s[1]}")'
+        if k == "if" and self.joins and rest and tail is None and not self.diverges(s):
+            # the statements after the `if` become a function of the variables in scope (a join point)
+            self.nloops += 1
+            jname = f"{self.name}_join{self.nloops}"
+            jt = self.comp(rest, scope, None)
+            sig = " ".join(f"({x} : {self.ty(x)})" for x in scope)
+            self.defs.append(f"def {jname} {sig} : {self.ret} := {jt}")
+            call = f"({jname} {' '.join(scope)})"
+            arms, els = s[1], s[2]
+            t = self.comp(els, scope, call) if els else call
+            for c, b in reversed(arms):
+                t = f"(if {self.cond(c)} then {self.comp(b, scope, call)} else {t})"
+            return t
         if k == "if":
             arms, els = s[1], s[2]
             t = self.comp((els or []) + rest, scope, tail)
@@ -644,6 +702,40 @@ def gen_insert_fast(src, W, suffix):
         raise TieError(f"insert ({suffix}): big arm room test")
     _, after = block_after(ab, room.end() - 1)
     big = ab[:room.start()] + pseudo + ab[room.end():after] + " panic!()"
+    # the same arm WITH the placeholder re-selection; the generator's draw is a parameter
+    mm = re.search(r'InternalMut::Big \{ s, a \} => \{', body)
+    abf = body_of(body, mm.end() - 1)[0]
+    abf, n1 = re.subn(r'crate::rand::rand(?:64|32)\(s\.cap, s\.bits\)', 'draw', abf, count=1)
+    abf, n2 = re.subn(r'a\.iter\(\)\.any\(\|&v\| v == i\)', 'hasword(a, i)', abf, count=1)
+    abf, n3 = re.subn(r'i\.wrapping_add\(1\)', 'i.wrapping_add1()', abf, count=1)
+    abf, n4 = re.subn(r'a\[p_insert\(s\.bits, a, 0\)\] = s\.bits;', 'let idx0 = p_insert(s.bits, a, 0); a[idx0] = s.bits;', abf, count=1)
+    abf = re.sub(r'a\[p_insert\(e, a, 0\)\] = e;', 'let idx = p_insert(e, a, 0); a[idx] = e;', abf)
+    if (n1, n2, n3, n4) != (1, 1, 1, 1):
+        raise TieError(f"insert ({suffix}): big arm, placeholder re-selection shape {(n1, n2, n3, n4)}")
+    if W == 64:
+        room = re.search(r'if a\.iter\(\)\.cloned\(\)\.any\(\|x\| x == 0\) \{', abf)
+    else:
+        room = re.search(r'if a\.iter\(\)\s*\.cloned\(\)\s*\.filter\(\|&x\| x == 0\)[^\n]*\s*\.enumerate\(\)[^\n]*\s*\.any\(\|\(n, _\)\| n \+ 1 > a\.len\(\) >> 4\)\s*(?://[^\n]*\s*)?\{', abf)
+    if not room:
+        raise TieError(f"insert ({suffix}): big arm room test")
+    _, after = block_after(abf, room.end() - 1)
+    bigfull = abf[:room.start()] + pseudo + abf[room.end():after] + " panic!()"
+    sp = SP(lex(bigfull), W, suffix)
+    sp.p.aliases = {}
+    stmts = sp.block()
+    if sp.p.peek()[0] != "eof":
+        raise TieError(f"insert bigfull: trailing tokens {sp.p.peek()}")
+    params = [("e", "Nat"), ("s_sz", "Nat"), ("s_bits", "Nat"), ("a", "Array Nat"), ("draw", "Nat")]
+    g = Gen(f"insert_bigfull_{suffix}", params, "Except String ((Bool × Nat × Nat) × Array Nat)", props=sp.p.props)
+    g.szvar = "s_sz, s_bits"
+    g.suffix = suffix
+    g.W = W
+    g.boolexprs = sp.p.boolexprs
+    g.joins = True
+    top = g.comp(stmts, [x for x, _ in params], None)
+    sig = " ".join(f"({x} : {t})" for x, t in params)
+    out += g.defs
+    out.append(f"def insert_bigfull_{suffix} {sig} : Except String ((Bool × Nat × Nat) × Array Nat) := {top}")
     for arm, text, params, szvar in (("dense", dense, [("e", "Nat"), ("sz", "Nat"), ("a", "Array Nat")], "sz"),
                                      ("heap", heap, [("e", "Nat"), ("s_sz", "Nat"), ("s_bits", "Nat"), ("a", "Array Nat")], "s_sz"),
                                      ("big", big, [("e", "Nat"), ("s_sz", "Nat"), ("s_bits", "Nat"), ("a", "Array Nat")], "s_sz")):
@@ -652,13 +744,17 @@ def gen_insert_fast(src, W, suffix):
         stmts = sp.block()
         if sp.p.peek()[0] != "eof":
             raise TieError(f"insert {arm}: trailing tokens {sp.p.peek()}")
-        g = Gen(f"insert_{arm}_{suffix}", params, "Except String ((Bool × Nat) × Array Nat)", props=sp.p.props)
-        g.szvar = szvar
+        ret = "Except String ((Bool × Nat × Nat) × Array Nat)" if arm == "big" else "Except String ((Bool × Nat) × Array Nat)"
+        g = Gen(f"insert_{arm}_{suffix}", params, ret, props=sp.p.props)
+        g.szvar = "s_sz, s_bits" if arm == "big" else szvar
         g.suffix = suffix
+        g.W = W
         g.boolexprs = sp.p.boolexprs
+        g.joins = (arm == "big")
         top = g.comp(stmts, [x for x, _ in params], None)
         sig = " ".join(f"({x} : {t})" for x, t in params)
-        out.append(f"def insert_{arm}_{suffix} {sig} : Except String ((Bool × Nat) × Array Nat) := {top}")
+        out += g.defs
+        out.append(f"def insert_{arm}_{suffix} {sig} : {ret} := {top}")
     return out
 
 def gen_tiny_contains(src, W, suffix):
@@ -704,6 +800,8 @@ def gen_loops(s64, s32):
            "/-- `a.iter().cloned().any(|x| x == 0)`; more than 1/16 of the buckets empty (`SetU32`) -/",
            "def anyzero (a : Array Nat) : Bool := a.toList.any (· == 0)",
            "def room16 (a : Array Nat) : Bool := (a.toList.filter (· == 0)).length > a.size >>> 4",
+           "/-- `a.iter().any(|&v| v == i)` -/",
+           "def hasWord (a : Array Nat) (i : Nat) : Bool := a.toList.contains i",
            "/-- `!x` of a `w`-bit unsigned value -/",
            "def notW (w x : Nat) : Nat := 2 ^ w - 1 - x",
            "end RI"]
